@@ -323,7 +323,12 @@ def coq_eval_bad_multi(prop, requires, case_type, check_fns, case_terms, shard_s
         return [[] for _ in check_fns]
     d = os.path.join(CACHE, 'cases', prop)
     os.makedirs(d, exist_ok=True)
-    shards = [case_terms[i:i + shard_size] for i in range(0, len(case_terms), shard_size)]
+    # round-robin sharding, so that expensive cases (which tend to be adjacent) spread over all processes
+    nshards = max(1, (len(case_terms) + shard_size - 1) // shard_size)
+    if len(case_terms) > 64:
+        nshards = max(nshards, min(JOBS, len(case_terms) // 32))
+    shard_idx = [list(range(j, len(case_terms), nshards)) for j in range(nshards)]
+    shards = [[case_terms[i] for i in idxs] for idxs in shard_idx]
     bad = [[] for _ in check_fns]
     running = []
 
@@ -361,7 +366,7 @@ def coq_eval_bad_multi(prop, requires, case_type, check_fns, case_terms, shard_s
             raise Broken('coq-eval', 'unparsable coqc output for %s:\n%s' % (path, out[-2000:]))
         for k, m in enumerate(ms):
             for x in re.findall(r'(\d+)%N', m):
-                bad[k].append(si * shard_size + int(x))
+                bad[k].append(shard_idx[si][int(x)])
         os.unlink(path)
     return [sorted(b) for b in bad]
 
